@@ -448,6 +448,7 @@ def request_string_length(nservices: int, ngnr: int, quick: bool) -> int:
 def check_layer(layer: Any, ref: refdispatch.RefLayer, shapes: List[str], ngnr: int, maxlen: int, part: Part,
                 selftest: bool = False, qlen: int = 0) -> None:
     part.count("layers")
+    _LAYER_CTX.update(maxlen=maxlen, qlen=qlen)
     # 0. the reference agrees with itself: every own encoding is a MATCH of its object with the original values
     rqs, rsps = own_messages(ref)
     for svc, c, values, R in rqs:
@@ -851,17 +852,37 @@ def groups_diff(layer: Any, ref: refdispatch.RefLayer) -> str:
 CAND = "__cand__"
 
 
+HISTORY_KEY = "C06/history/violation-only-after-earlier-calls"
+_LAYER_CTX: Dict[str, Any] = {}  # (maxlen, qlen) of the layer being explored: what a history witness has to re-run
+
+
 def report(part: Part, key: str, case: Dict[str, Any], detail: str) -> None:
-    """part.violation + remember the canonical (smallest, then lexicographically first) case of the key, so that
-    the recorded witness does not depend on the order in which workers finish (mcx keeps the first of equal size)."""
-    part.violation(key, case, detail)
+    """part.violation + remember the canonical (simplest, then lexicographically first) case of the key, so that
+    the recorded witness does not depend on the order in which workers finish (mcx keeps the first of equal size).
+    A single decode / decode_response case that would become the witness is first re-executed on a FRESH layer object
+    (that is what a replay does); if it does not show the violation there, the violation exists only after the earlier
+    calls on the explored object and is reported as such, with the whole layer exploration as its case."""
     j = jdump(case)
     # simplest first: no global negative responses, few services, no empty-prefix service, short message
     rank = (case["gnrs"], len(case["services"]), "Eb" in case["services"], len(case["msg"]), len(j))
     cand = (rank, j, detail)
     best = part.sets.get(CAND + key)
-    if not best or cand[:2] < next(iter(best))[:2]:
-        part.sets[CAND + key] = {cand}
+    if best and not cand[:2] < next(iter(best))[:2]:
+        part.nviol += 1  # (a witness at least as simple is already recorded)
+        return
+    if case["op"] in ("decode", "decode_response") and key != HISTORY_KEY and not _LAYER_CTX.get("replaying"):
+        _LAYER_CTX["replaying"] = True
+        try:
+            again = [k for k, _ in replay(case)]
+        finally:
+            _LAYER_CTX["replaying"] = False
+        if key not in again:
+            hcase = {"services": case["services"], "gnrs": case["gnrs"], "op": "layer", "msg": "",
+                     "maxlen": _LAYER_CTX.get("maxlen", 3), "qlen": _LAYER_CTX.get("qlen", 0)}
+            report(part, HISTORY_KEY, hcase, f"[{key}] only after earlier calls on the same layer object, not on a fresh one: {detail}")
+            return
+    part.violation(key, case, detail)
+    part.sets[CAND + key] = {cand}
 
 
 def canonical_witnesses(ctx: Ctx) -> None:
@@ -1068,6 +1089,10 @@ def replay(case: Any) -> List[Tuple[str, str]]:
             layer._prefix_tree  # noqa
         except Exception as ex:  # noqa
             return [(f"C06/prefix-tree/raises-{type(ex).__name__}", str(ex)[:200])]
+        if case["op"] == "layer":
+            part = Part()
+            check_layer(layer, ref, shapes, ngnr, int(case["maxlen"]), part, qlen=int(case["qlen"]))
+            return [(k, v[2]) for k, v in part.viol.items() if k == HISTORY_KEY]
         if case["op"] == "refresh":
             part = Part()
             check_refresh((tuple(shapes), ngnr, case["kind"], case["edit"]), max(2, len(case["msg"]) // 2), part)
